@@ -2,13 +2,15 @@ import PartituraModel.Wire
 import PartituraModel.Model.Unfold
 import PartituraModel.Model.UnfoldFam
 import PartituraModel.Model.UnfoldIds
+import PartituraModel.Model.UnfoldEntry
 
 open Wire Model.Unfold
 
 /-
 Requests (L = layout, PART = abstract part):
   L    := first last  nrep (s e)*  nend (s e nnum num*)*  codas tocodas dacapos fines segnos dalsegnos   (count-prefixed int lists)
-  PART := npoints t*  nobj (kind start stp|- npay pay* id|- nattr (ntgt tgt*)*)*  nqd (t q)*
+  PART := npoints t*  nobj (kind start stp|- npay pay* id|- cls nattr (ntgt tgt*)*)*  nqd (t q)*
+          (cls = rank of the object's class in [Note] + list(iter_subclasses(Note)), 0 for everything else)
   seg   L                         -> [(start,stp,[to],[await],type)]            | err
   paths L nr ar il                -> [[ids]]                                      | err
   var   L nr ar il idx upd PART   -> ([points],[objects sorted],[(t,q)],duration) | err
@@ -20,7 +22,15 @@ Requests (L = layout, PART = abstract part):
   segstr L                        -> [([to: code points of every id string],[await_to: likewise])]   | err
                                      (the cleanup done on the raw STRINGS with Python's string order — `mkSegmentsStr`;
                                       Props/C09Many proves it equal to `seg` read through `segId`; compared with the real lists)
-Destinations are printed as segment numbers, `END` as `E`.
+  entry max   L upd|- il|- PART          -> variant | err     `unfold_part_maximal(part[, update_ids][, ignore_leaps])`, `-` = omitted
+  entry min   L PART                     -> variant | err     `unfold_part_minimal(part)`
+  entry iter  L upd|- idx PART           -> (count,variant idx) | err   `list(iter_unfolded_parts(part[, update_ids]))`
+  entry smax  upd|- il|- n (L PART)*     -> [variant] | err   `unfold_part_maximal(Score(parts), …).parts`
+  entry smin  n (L PART)*                -> [variant] | err   `unfold_part_minimal(Score(parts)).parts`
+  entry visits L idx                     -> (count,[(start,end,offset)]) | err   `make_score_variants(part)[idx].segment_times`
+  entry align L PART nids id*            -> variant | err           the variant `unfold_part_alignment` returns for these score ids
+  lits                                   -> the generated literals the entry-point model uses (Gen/C09Lits.lean)
+Destinations are printed as segment numbers, `END` as `E`.  Note ids are printed as `=<id>`, a missing id as `-`.
 -/
 
 /-- one unit of fuel per visited segment; Python gives up (RecursionError) at about 990 visits -/
@@ -60,8 +70,9 @@ def pObj : P Obj := do
   let e ← opt int
   let pay ← list int
   let id ← opt str
+  let cls ← nat
   let refs ← list (list nat)
-  pure { kind := kindOf k, start := s, stp := e, payload := pay, nid := id, refs := refs }
+  pure { kind := kindOf k, start := s, stp := e, payload := pay, nid := id, refs := refs, cls := cls }
 
 def pPart : P APart := do
   let pts ← list int
@@ -87,13 +98,77 @@ def fmtOObj (all : List OObj) (o : OObj) : String :=
       | some q => toString j ++ "@" ++ toString q.start
       | none => "?"
   fmtTuple [fmtInt o.start, fmtOpt fmtInt o.stp, fmtNat (kindCode o.kind), fmtNat o.orig,
-    fmtOpt id o.nid, fmtList fmtInt o.payload, fmtList (fmtList tgt) o.refs]
+    (match o.nid with | none => "-" | some s => "=" ++ s), fmtList fmtInt o.payload, fmtList (fmtList tgt) o.refs]
 
 def objKeyLe (a b : OObj) : Bool :=
   a.start < b.start || (a.start = b.start && a.orig ≤ b.orig)
 
+/-- canonical text of an unfolded part (objects sorted by start, then by the position of the original) -/
+def fmtVariant (v : Variant) : String :=
+  let sorted := v.objs.mergeSort objKeyLe
+  fmtTuple [fmtList fmtInt v.points, fmtList (fmtOObj v.objs) sorted,
+            fmtList (fun q : Int × Int => fmtTuple [fmtInt q.1, fmtInt q.2]) v.qd,
+            fmtOpt fmtInt v.duration]
+
+def fmtSrc : Gen.C09.Src → String
+  | .const b => if b then "1" else "0"
+  | .ignoreLeaps => "il"
+  | .updateIds => "upd"
+
+def fmtCall (c : Gen.C09.Src × Gen.C09.Src × Gen.C09.Src × Gen.C09.Src) : String :=
+  fmtTuple [fmtSrc c.1, fmtSrc c.2.1, fmtSrc c.2.2.1, fmtSrc c.2.2.2]
+
+def handleEntry (ts : List String) : String :=
+  match ts with
+  | "max" :: rest =>
+    match run (do let L ← pLayout; let upd ← opt bool; let il ← opt bool; let p ← pPart; pure (L, upd, il, p)) rest with
+    | none => "bad-request"
+    | some (L, upd, il, p) => ((unfoldPartMaximal L p upd il FUEL).map fmtVariant).getD "err"
+  | "min" :: rest =>
+    match run (do let L ← pLayout; let p ← pPart; pure (L, p)) rest with
+    | none => "bad-request"
+    | some (L, p) => ((unfoldPartMinimal L p FUEL).map fmtVariant).getD "err"
+  | "iter" :: rest =>
+    match run (do let L ← pLayout; let upd ← opt bool; let idx ← nat; let p ← pPart; pure (L, upd, idx, p)) rest with
+    | none => "bad-request"
+    | some (L, upd, idx, p) =>
+      ((iterUnfoldedParts L p upd FUEL).bind fun vs => (vs[idx]?).map fun v =>
+        fmtTuple [fmtNat vs.length, fmtVariant v]).getD "err"
+  | "smax" :: rest =>
+    match run (do let upd ← opt bool; let il ← opt bool
+                  let ps ← list (do let L ← pLayout; let p ← pPart; pure (L, p)); pure (upd, il, ps)) rest with
+    | none => "bad-request"
+    | some (upd, il, ps) => ((unfoldScoreMaximal ps upd il FUEL).map (fmtList fmtVariant)).getD "err"
+  | "smin" :: rest =>
+    match run (list (do let L ← pLayout; let p ← pPart; pure (L, p))) rest with
+    | none => "bad-request"
+    | some ps => ((unfoldScoreMinimal ps FUEL).map (fmtList fmtVariant)).getD "err"
+  | "visits" :: rest =>
+    match run (do let L ← pLayout; let idx ← nat; pure (L, idx)) rest with
+    | none => "bad-request"
+    | some (L, idx) =>
+      let c := Gen.C09.variantsCall
+      ((getPathsPart L (some (c.1.eval true true)) (some (c.2.1.eval true true)) (some (c.2.2.1.eval true true)) FUEL).bind
+        fun gp => (gp.2[idx]?).bind fun path => (visitsOf gp.1 path).map fun vs =>
+          fmtTuple [fmtNat gp.2.length,
+            fmtList (fun v : Visit => fmtTuple [fmtInt v.s, fmtInt v.e, fmtInt v.off]) vs]).getD "err"
+  | "align" :: rest =>
+    match run (do let L ← pLayout; let p ← pPart; let ids ← list str; pure (L, p, ids)) rest with
+    | none => "bad-request"
+    | some (L, p, ids) =>
+      ((alignmentCandidates L p FUEL).bind fun cs => (alignPick cs ids).bind fun k => (cs[k]?).map fmtVariant).getD "err"
+  | _ => "bad-request"
+
 def handle (ts : List String) : String :=
   match ts with
+  | "entry" :: rest => handleEntry rest
+  | ["lits"] =>
+    fmtTuple [fmtList id Gen.C09.DROPPED, fmtList id Gen.C09.KEPT, Gen.C09.ID_SEP, fmtNat Gen.C09.ID_FIRST,
+      fmtNat Gen.C09.SEG_ID_BASE, fmtList fmtNat Gen.C09.END,
+      fmtBool Gen.C09.MAX_DEF.1, fmtBool Gen.C09.MAX_DEF.2, fmtBool Gen.C09.ITER_DEF, fmtBool Gen.C09.NEWPART_DEF,
+      fmtBool Gen.C09.PATHS_DEF.1, fmtBool Gen.C09.PATHS_DEF.2.1, fmtBool Gen.C09.PATHS_DEF.2.2,
+      fmtCall Gen.C09.maximalCall, fmtCall Gen.C09.maximalScoreCall, fmtCall Gen.C09.minimalCall,
+      fmtCall Gen.C09.minimalScoreCall, fmtCall Gen.C09.iterCall, fmtCall Gen.C09.variantsCall]
   | "seg" :: rest =>
     match run pLayout rest with
     | none => "bad-request"
@@ -134,11 +209,7 @@ def handle (ts : List String) : String :=
         let path ← ps[idx]?
         let vs ← visitsOf g path
         let v := variant p vs
-        let objs := if upd then suffixIds v.objs else v.objs
-        let sorted := objs.mergeSort objKeyLe
-        pure (fmtTuple [fmtList fmtInt v.points, fmtList (fmtOObj objs) sorted,
-                        fmtList (fun q : Int × Int => fmtTuple [fmtInt q.1, fmtInt q.2]) v.qd,
-                        fmtOpt fmtInt v.duration])
+        pure (fmtVariant (if upd then { v with objs := suffixIds v.objs } else v))
       r.getD "err"
   | _ => "bad-request"
 
